@@ -1686,6 +1686,449 @@ def run_algorithm(ctx, env, rng, case):
 
 
 # --------------------------------------------------------------------------
+# Operator histories: an operator object that was brought to its parameters by
+# the symbolic API behaves like a freshly constructed one.
+# --------------------------------------------------------------------------
+
+SEEDED_LEAVES = (MUTATORS + ['recombinators.Uniform', 'recombinators.Sample',
+                             'recombinators.KPoint'] + PERMUTATION
+                 + ['selectors.Random', 'selectors.Sample'])
+JSON_WHERE = (None, 'ALL', 'any1', 'any2')
+
+
+def permutation_elems(desc):
+  """Top-level permutation points (every parent pair agrees above them)."""
+  return [e for e in desc['elems']
+          if e['t'] == 'choice' and e['k'] >= 2 and e['k'] == len(e['cands'])
+          and e['distinct'] and not e['sorted']]
+
+
+def gen_subject(rng, env):
+  """(expression, parent indices): a seeded operator, or a small composite
+  that holds seeded operators (selector >> generator, generator.with_prob)."""
+  npop = len(env.pop)
+  everyone = list(range(npop))
+  few = everyone if npop <= 5 else sorted(rng.sample(everyone, 5))
+  if len(permutation_elems(env.desc)) >= 2 and rng.random() < 0.5:
+    fam = rng.choice(PERMUTATION)       # the where filter has to draw
+  else:
+    fam = rng.choice(SEEDED_LEAVES + ['pipeline', 'choice'])
+  if fam == 'pipeline':
+    sel = {'k': 'leaf', 'op': 'selectors.Random', 'n': 2, 'replacement': False,
+           'seed': rng.randrange(1000)}
+    if rng.random() < 0.4:
+      sel = {'k': 'leaf', 'op': 'selectors.Sample', 'n': 2, 'weights': 'ramp',
+             'seed': rng.randrange(1000)}
+    gen = gen_leaf(rng, env, rng.choice(
+        MUTATORS + ['recombinators.Uniform', 'recombinators.KPoint'] + PERMUTATION),
+                   False)
+    return {'k': 'bin', 'o': '>>', 'a': sel, 'b': gen}, few
+  if fam == 'choice':
+    x = gen_leaf(rng, env, rng.choice(
+        MUTATORS + ['recombinators.Uniform', 'recombinators.Sample']), True)
+    return {'k': 'un', 'o': 'with_prob', 'x': x, 'p': 0.5,
+            'seed': rng.randrange(1000)}, few
+  node, idxs = gen_application(rng, env, fam)
+  if fam in PERMUTATION:
+    w = rng.choice([None, None, 'any1', 'any1', 'any2', 'ALL', 'first'])
+    node.pop('wseed', None)
+    node['where'] = w
+    if w in ('any1', 'any2'):
+      node['wseed'] = rng.randrange(1000)
+  if fam in SELECTORS and not idxs:
+    idxs = everyone
+  return node, idxs
+
+
+def seed_parts(expr):
+  """[(library path prefix, description node)] of the nodes of a history
+  subject that hold parameters (every one of them has a seed)."""
+  if expr['k'] == 'leaf':
+    return [('', expr)]
+  if expr['k'] == 'bin':
+    return [('ops[0].', expr['a']), ('ops[1].', expr['b'])]
+  return [('', expr), ('ops[0][0].', expr['x'])]     # x.with_prob -> Choice
+
+
+def other_than(rng, old, values):
+  values = [v for v in values if v != old]
+  return rng.choice(values)
+
+
+def gen_reseed(rng, expr):
+  """{part index: {key: new value}} that gives every random generator of the
+  subject (operators, where.Any filters) a new, different seed."""
+  out = {}
+  for i, (_, node) in enumerate(seed_parts(expr)):
+    ups = {'seed': other_than(rng, node['seed'], range(1000))}
+    if 'wseed' in node:
+      ups['wseed'] = other_than(rng, node['wseed'], range(1000))
+    out[i] = ups
+  return out
+
+
+def gen_param_update(rng, env, expr):
+  """{part index: {key: new value}}: one non-seed parameter of one leaf gets a
+  different value (None if the subject has no such parameter)."""
+  parts = [(i, n) for i, (_, n) in enumerate(seed_parts(expr)) if n['k'] == 'leaf']
+  i, node = rng.choice(parts)
+  op = node['op']
+  if op == 'mutators.Uniform':
+    ws = ['any', 'leaf', 'categorical', 'nonroot', 'subchoice']
+    return {i: {'where': other_than(rng, node['where'], ws)}}
+  if op == 'mutators.Swap':
+    return {i: {'where': other_than(rng, node['where'], ['any', 'root', 'unsorted'])}}
+  if op == 'recombinators.KPoint':
+    return {i: {'kk': other_than(rng, node['kk'], [1, 2, 3, 'kstep'])}}
+  if op == 'selectors.Random':
+    if rng.random() < 0.3:
+      return {i: {'replacement': not node['replacement']}}
+    return {i: {'n': other_than(rng, node['n'], [1, 2, 3, 0.5, None, 'nstep'])}}
+  if op == 'selectors.Sample':
+    if rng.random() < 0.5:
+      return {i: {'weights': other_than(rng, node['weights'], ['ones', 'ramp', 'stepped'])}}
+    return {i: {'n': other_than(rng, node['n'], [1, 2, 3, 'nstep'])}}
+  if op == 'recombinators.Sample' and rng.random() < 0.4:
+    return {i: {'weights': other_than(rng, node['weights'], ['ones', 'ramp'])}}
+  # the where filter of a recombinator (a new filter object)
+  names = ['ALL', 'any1', 'any2'] if op in PERMUTATION else ['ALL', 'any1', 'any2', 'anystep']
+  w = other_than(rng, node['where'], names)
+  ups = {'where': w}
+  if w.startswith('any'):
+    ups['wseed'] = rng.randrange(1000)
+  return {i: ups}
+
+
+def apply_updates(expr, updates):
+  """The description after `updates`, and the same updates as a dict of
+  library paths -> values (what the user passes to rebind / override)."""
+  expr = json.loads(json.dumps(expr))
+  lib = {}
+  for i, ups in sorted(updates.items(), key=lambda kv: int(kv[0])):
+    prefix, node = seed_parts(expr)[int(i)]
+    before = dict(node)
+    node.update(ups)
+    if 'where' in ups and not str(ups['where']).startswith('any'):
+      node.pop('wseed', None)
+    for key, v in ups.items():
+      if key == 'wseed':
+        if 'where' not in ups:
+          lib[prefix + 'where.seed'] = v
+      elif key == 'where':
+        if node['op'] in MUTATORS:
+          table = MUT_WHERE if node['op'] == 'mutators.Uniform' else SWAP_WHERE
+          lib[prefix + 'where'] = table[v]
+        else:
+          lib[prefix + 'where'] = build_where(v, node.get('wseed'))
+      elif key == 'kk':
+        lib[prefix + 'k'] = scalar(v)
+      elif key == 'n':
+        lib[prefix + 'n'] = scalar(v)
+      elif key == 'weights':
+        lib[prefix + 'weights'] = WEIGHTS[v]
+      else:                                  # seed, replacement
+        lib[prefix + key] = v
+    del before
+  return expr, lib
+
+
+def json_able(expr):
+  """True if no parameter of the subject is a function."""
+  for _, node in seed_parts(expr):
+    if node['k'] != 'leaf':
+      continue
+    if node.get('where') not in JSON_WHERE or 'weights' in node:
+      return False
+    if isinstance(node.get('n'), str) or isinstance(node.get('kk'), str):
+      return False
+  return True
+
+
+def gen_history(rng, env, expr):
+  """Steps of a history. A `call` step calls the operator n times; every other
+  step is a transformation through the symbolic API. After calls were made
+  the next transformation chain contains an anchor (a step that re-seeds every
+  random generator of the subject, or a JSON round trip), because whether any
+  other step keeps or resets the state of a random generator is not
+  documented; transformations of an operator that was not called since its
+  last anchor leave it in the state of a fresh operator either way."""
+  steps, cur, called = [], expr, False
+  if rng.random() < 0.45:
+    steps.append({'s': 'call', 'n': rng.randint(1, 2)})
+    called = True
+  for _ in range(rng.choice([1, 1, 2, 2, 3])):
+    chain = []
+    for j in range(rng.choice([1, 1, 1, 2])):
+      anchor = called and j == 0
+      kind = rng.choice(['rebind', 'rebind', 'rebind', 'assign', 'clone',
+                         'clone', 'json'])
+      if kind == 'json':
+        if not json_able(cur):
+          kind = 'rebind'
+        else:
+          chain.append({'s': 'json', 'str': rng.random() < 0.5, 'kind': 'json'})
+          continue
+      updates = {}
+      if anchor or rng.random() < 0.6:
+        updates = gen_reseed(rng, cur)
+      if not updates or rng.random() < 0.35:
+        for i, ups in gen_param_update(rng, env, cur).items():
+          updates.setdefault(i, {}).update(ups)
+      seeds = any('seed' in ups for ups in updates.values())
+      if kind == 'clone':
+        if not anchor and rng.random() < 0.35:
+          chain.append({'s': 'clone', 'deep': rng.random() < 0.7, 'set': None,
+                        'kind': 'clone'})
+          continue
+        step = {'s': 'clone', 'deep': rng.random() < 0.7, 'set': updates,
+                'kind': 'clone-override'}
+      elif kind == 'assign':
+        step = {'s': 'assign', 'set': updates, 'kind': 'assign'}
+      else:
+        step = {'s': 'rebind', 'set': updates, 'split': rng.random() < 0.3,
+                'kind': 'rebind-seed' if seeds else 'rebind-param'}
+      cur, _ = apply_updates(cur, updates)
+      chain.append(step)
+    steps.extend(chain)
+    steps.append({'s': 'call', 'n': rng.randint(2, 3)})
+    called = True
+  return steps
+
+
+def set_by_path(op, path, value):
+  """`op.<path> = value` written as attribute assignments."""
+  kp = pg.KeyPath.parse(path)
+  setattr(kp.parent.query(op), kp.key, value)
+
+
+def transform(op, expr, step):
+  """Applies one transformation step; returns (operator, description)."""
+  if step['s'] == 'json':
+    if step['str']:
+      return pg.from_json_str(pg.to_json_str(op)), expr
+    return pg.from_json(pg.to_json(op)), expr
+  if step['set'] is None:
+    return op.clone(deep=step['deep']), expr
+  expr, lib = apply_updates(expr, step['set'])
+  if step['s'] == 'clone':
+    return op.clone(deep=step['deep'], override=lib), expr
+  if step['s'] == 'assign':
+    with pg.allow_writable_accessors(True):
+      for path, v in lib.items():
+        set_by_path(op, path, v)
+    return op, expr
+  if step.get('split'):
+    for path, v in lib.items():
+      op.rebind({path: v}, raise_on_no_change=False)
+  else:
+    op.rebind(lib, raise_on_no_change=False)
+  return op, expr
+
+
+def reseeds_all(expr, updates):
+  if not updates:
+    return False
+  for i, (_, node) in enumerate(seed_parts(expr)):
+    ups = updates.get(i, updates.get(str(i), {}))
+    if 'seed' not in ups:
+      return False
+    if 'wseed' in node and 'wseed' not in ups and not (
+        'where' in ups or node.get('op') in PERMUTATION):
+      return False
+  return True
+
+
+def history_precondition(env, expr, inputs, step):
+  """None if a call of the subject on `inputs` is inside the preconditions."""
+  if expr['k'] == 'leaf':
+    return leaf_precondition(env, expr, inputs, step)
+  if expr['k'] == 'bin':
+    if len(inputs) < 2:
+      return 'needs two parents'
+    b = expr['b']
+    return leaf_precondition(env, b, inputs[:2] if b['op'] in TWO_PARENTS
+                             else inputs, step)
+  return leaf_precondition(env, expr['x'], inputs, step)
+
+
+def exception_mechanism(env, expr, e, inputs):
+  """Mechanism of an exception raised inside a history (as the probes name it)."""
+  name = raising_operation(e)
+  for leaf in leaves(expr):
+    if node_name(leaf) != name:
+      continue
+    if (leaf['op'] in ('recombinators.Uniform', 'recombinators.Sample')
+        and leaf['where'] not in (None, 'ALL')):
+      return name + ':partial-where'
+  return name
+
+
+class HistoryEnd(Exception):
+  """The history cannot continue (inapplicable, or a violation was recorded)."""
+
+
+def run_history(ctx, env, expr, steps, inputs, step0, case, quiet=False):
+  """Executes a history. Every maximal run of calls that starts from a known
+  state (fresh object / anchor, no calls since) is compared with the same calls
+  of a fresh operator built from the current description. Returns None or
+  (kinds of the transformations since the anchor, detail) of the first
+  diverging run of calls; with `quiet` nothing is recorded."""
+  c = ctx.counters
+  pop_ids = {id(d): i for i, d in enumerate(env.pop)}
+  root = node_name(expr)
+  state = {'op': None, 'expr': expr, 'known': True, 'ncalls': 0, 'chain': [],
+           'trace': [], 'calls': [], 'nstep': step0, 'last_out': None}
+
+  def guarded(label, fn):
+    try:
+      return fn()
+    except Exception as e:  # pylint: disable=broad-except
+      if not lib_innermost(e):
+        raise
+      if not quiet:
+        ctx.violation('unexpected-exception', label,
+                      f'{show(state["expr"])} after {state["chain"]}:\n'
+                      + ''.join(traceback.format_exception(e))[-2500:], case)
+      raise HistoryEnd() from e
+
+  def call(op, cur, st, gseed):
+    pyrandom.seed(gseed)
+    rng_state = pyrandom.getstate()
+    try:
+      out = op(list(inputs), global_state=pg.geno.AttributeDict(), step=st)
+    except Exception as e:  # pylint: disable=broad-except
+      if not lib_innermost(e):
+        raise
+      if not quiet:
+        ctx.violation('unexpected-exception',
+                      exception_mechanism(env, cur, e, inputs),
+                      f'{show(cur)} (history {state["chain"]}) raised at step '
+                      f'{st}:\n' + ''.join(traceback.format_exception(e))[-2500:],
+                      case)
+      raise HistoryEnd() from e
+    c['global_rng_checks'] += 1
+    if pyrandom.getstate() != rng_state and not quiet:
+      ctx.violation('global-rng-consumed', root,
+                    f'{show(cur)} (history {state["chain"]}) at step {st} drew '
+                    f'from the global random module although all its random '
+                    f'parameters are seeded', case)
+    return out
+
+  def flush():
+    """Compares the pending run of calls with a fresh operator."""
+    trace, calls = state['trace'], state['calls']
+    state['trace'], state['calls'] = [], []
+    if not trace:
+      return None
+    cur = state['expr']
+    ref = guarded('build-operator', lambda: build_bare(cur))
+    c['history_checks'] += 1
+    for k, (st, got) in enumerate(zip(calls, trace)):
+      want = signature(env, pop_ids, call(ref, cur, st, 7919 + st))
+      c['history_call_checks'] += 1
+      if got != want:
+        kinds = [s['kind'] for s in state['chain']]
+        return (kinds, f'{show(cur)} reached by the history '
+                f'{state["history"]!r:.900} returned {got!r:.500} at its call '
+                f'{k + 1} after the last re-seeding step (step={st}); a fresh '
+                f'operator with these parameters returned {want!r:.500} on the '
+                f'same inputs (call {k + 1})')
+    if not quiet and state['last_out'] is not None:
+      for o in state['last_out']:
+        if isinstance(o, pg.DNA) and id(o) not in pop_ids:
+          check_dna(env, o, root, case)
+    return None
+
+  state['history'] = [dict(s) for s in steps]
+  state['op'] = guarded('build-operator', lambda: build_bare(expr))
+  for s in steps:
+    if s['s'] == 'call':
+      for _ in range(s['n']):
+        st = state['nstep']
+        state['nstep'] += 1
+        if history_precondition(env, state['expr'], inputs, st):
+          c['history_inapplicable'] += 1
+          raise HistoryEnd()
+        out = call(state['op'], state['expr'], st, 104729 + st)
+        if not isinstance(out, list):
+          raise HistoryEnd()          # (reported by the probes of the operator)
+        state['ncalls'] += 1
+        if state['known']:
+          state['trace'].append(signature(env, pop_ids, out))
+          state['calls'].append(st)
+          state['last_out'] = flatten(out)
+      continue
+    bad = flush()
+    if bad:
+      return bad
+    anchor = s['s'] == 'json' or reseeds_all(state['expr'], s.get('set'))
+    if anchor:
+      state['chain'] = []
+    elif state['ncalls']:
+      state['known'] = False
+    if anchor:
+      state['known'], state['ncalls'] = True, 0
+    state['chain'].append(s)
+    c['history_steps:' + s['kind']] += 1
+    op, cur = state['op'], state['expr']
+    state['op'], state['expr'] = guarded(
+        f'{root}:history-{s["kind"]}', lambda: transform(op, cur, s))
+  return flush()
+
+
+def history_kind(ctx, env, expr, steps, kinds, inputs, step0, case):
+  """Names the transformation of a diverging chain: the first kind that
+  diverges from a fresh operator when it is the only step of a history."""
+  if len(set(kinds)) == 1:
+    return kinds[0]
+  cur = expr
+  for s in steps:
+    if s['s'] == 'call':
+      continue
+    if s['kind'] in kinds and (s['s'] == 'json' or s.get('set') is None
+                               or reseeds_all(cur, s['set']) or True):
+      try:
+        alone = run_history(ctx, env, cur, [s, {'s': 'call', 'n': 3}], inputs,
+                            step0, case, quiet=True)
+      except HistoryEnd:
+        alone = None
+      if alone:
+        return s['kind']
+    if s.get('set'):
+      cur, _ = apply_updates(cur, s['set'])
+  return 'combination'
+
+
+def history_application(ctx, env, rng, case):
+  """One operator history on the case's population."""
+  c = ctx.counters
+  expr, idxs = gen_subject(rng, env)
+  steps = gen_history(rng, env, expr)
+  step0 = rng.randrange(8)
+  inputs = [env.pop[i] for i in idxs]
+  root = node_name(expr)
+  case = dict(case, expression=show(expr), parents=idxs, step=step0,
+              history=steps)
+  c['histories'] += 1
+  c['history_root:' + root] += 1
+  try:
+    bad = run_history(ctx, env, expr, steps, inputs, step0, case)
+  except HistoryEnd:
+    bad = None
+    c['histories_ended_early'] += 1
+  if bad:
+    kinds, detail = bad
+    kind = (history_kind(ctx, env, expr, steps, kinds, inputs, step0, case)
+            if kinds else None)
+    mech = nondet_mechanism(expr) if expr['k'] == 'leaf' else root
+    if kind:
+      mech = f'{root}:history-{kind}'
+    ctx.violation('nondeterministic', mech, detail, case)
+  verify_population(ctx, env, root, case)
+  return root
+
+
+# --------------------------------------------------------------------------
 
 def cases(ctx):
   return int(ctx.params['cases'])
